@@ -16,13 +16,17 @@ EXPLANATION = (
     "number of input / output coefficients and the state dimension.  Each method's result must have the units and shapes of its interface "
     "signature.  A well-typed method is invariant under every positive rescaling of the latent coordinates (the 'all scalings 1e-12..1e12' "
     "quantifier) and contracts only like axes (n != d, k observed rows).  Plus the structure of the Normal methods (whitened residual RMS, "
-    "rescale_cholesky, logpdf summands, std, identity_conditional, to_derivative)."
+    "rescale_cholesky, logpdf summands, std, identity_conditional, to_derivative).  "
+    "Value identities of the mean algebra (domain M, mdomain.py): every mean is normalised to a linear combination of matrix words over the symbols "
+    "{A, gain, diagonal scalings, base vectors}; apply_flat / marginalise / revert-observed means equal P_out (A (P_in x) + b), the backward conditional of revert "
+    "evaluated at the observed mean returns the prior mean (the gain cancels), merge(c2, c).apply = c2.apply o c.apply, and preconditioner_apply preserves the map -- "
+    "in all three factorisations (the block-diagonal one per block)."
 )
 LEVEL = "other"
-TECHNIQUE = "units-of-measure and symbolic shape type inference over the abstract interpreter's terms (segmented axes for block matrices, typed vmap / einsum / QR / triangular solves)"
+TECHNIQUE = "units-of-measure and symbolic shape type inference over the abstract interpreter's terms (segmented axes for block matrices, typed vmap / einsum / QR / triangular solves); affine matrix-word normal form (free algebra with diagonal scalings) for value identities of the means"
 LEVEL_TEXT = (
     "One type derivation per method replaces the whole range of scalings and shapes; a dropped or misplaced scaling (as in the isotropic apply_flat defect, fixed in 494f97b) is a ground unit mismatch. "
-    "Exactness for singular covariances, conditioning and numerical agreement with dense formulas are not claimed."
+    "The means are decided by value (symbolic identities valid for every input); for the covariance factors only units/shapes are decided: exactness for singular covariances, conditioning and rounding are not claimed."
 )
 LEVEL_NOTE = (
     "Trusted base = the primitive signatures of adomain.py (qr_r needs a unit-uniform row axis and returns (white, column-units); triangular solves; matmul/einsum contraction; "
@@ -132,6 +136,8 @@ def run(chk, S: Session):
     chk.trust("primitive signatures of adomain.py (qr_r, solve_triu/tril, matmul, einsum, concatenate/block, zeros polymorphic)")
     r1 = chk.rule("R-C08-1", "units and shapes of apply_flat / marginalise / merge / revert / preconditioner_apply in all three factorisations (kernels inlined)", floor=55)
     r3 = chk.rule("R-C08-3", "Normal methods: whitened residual RMS, rescale_cholesky, logpdf summands, std, identity_conditional, to_derivative, from_mean_and_std", floor=15)
+    r4 = chk.rule("R-C08-4", "value identities of the mean algebra (affine matrix-word normal form): apply/marginalise/revert means, revert round trip, merge = composition, preconditioner removal", floor=15)
+    mean_algebra_rules(chk, S, r4)
     nin, nout, nmid = AD.dim("n_in"), AD.dim("n_out"), AD.dim("n_mid")
     for fam in FAMS:
         cfg = {"factorisation": fam.name}
@@ -344,3 +350,89 @@ def normal_rules(chk, S, r3, fam):
 from fractions import Fraction  # noqa: E402
 
 nf.Fraction = Fraction
+
+
+# ---------------------------------------------------------------------------
+# R-C08-4: value identities of the mean algebra (domain M)
+def _m_setup(S, fam):
+    from .. import mdomain as MD
+
+    it = S.interp()
+    env = AD.AEnv()
+    it.ndim_oracle = env.rank_of
+
+    def vmap_direct(itp, w, args, kwargs, site):
+        # per-block evaluation: the batched computation is a direct sum of identical per-block formulas
+        return itp.call(w.fn, list(args), kwargs, site)
+
+    it.hooks["vmap.apply"] = vmap_direct
+
+    def revert_hook(itp, fn, a, kw, site):
+        t = T.mk("revert_conditional", tuple(kw.get(k) for k in ("R_X_F", "R_X", "R_YX")) if kw.get("R_X_F") is not None else tuple(a))
+        return T.mk("getitem", (t, 0)), (T.mk("getitem", (t, 1)), T.mk("getitem", (t, 2)))
+
+    def sum_hook(itp, fn, a, kw, site):
+        return T.mk("sum_of_sqrtm_factors", tuple(a), kw)
+
+    it.method_hooks["probdiffeq.util.cholesky_util.revert_conditional"] = revert_hook
+    it.method_hooks["probdiffeq.util.cholesky_util.sum_of_sqrtm_factors"] = sum_hook
+    return it, env, MD
+
+
+def mean_algebra_rules(chk, S, r4):
+    n1, n2, n3 = AD.dim("n1"), AD.dim("n2"), AD.dim("n3")
+    for fam in FAMS:
+        it, env, MD = _m_setup(S, fam)
+        where = fam.module
+        cfg = {"factorisation": fam.name}
+        # c : x (n1) -> y (n2);  c2 : y (n2) -> z (n3)
+        c = mk_cond(it, env, fam, "c", n1, n2, Ein, Lin, Lout, Eout)
+        c2 = mk_cond(it, env, fam, "c2", n2, n3, Eout, Lout, Lin, Ein)
+        rv = mk_normal(it, env, fam, "rv", n1, Ein)
+        x = typed(env, "x", fam.mean(n1, Ein))
+        scal = [c.fields["to_latent"], c.fields["to_observed"], c2.fields["to_latent"], c2.fields["to_observed"]]
+        mats = [c.fields["A"], c2.fields["A"]]
+        alg = MD.Algebra(scal, mats)
+        A_, b_, tl, to = c.fields["A"], c.fields["noise"].fields["mean_flat"], c.fields["to_latent"], c.fields["to_observed"]
+
+        def aff(cond, v):
+            return T.mk("mul", (cond.fields["to_observed"], T.mk("add", (T.mk("matmul", (cond.fields["A"], T.mk("mul", (cond.fields["to_latent"], v)))), cond.fields["noise"].fields["mean_flat"]))))
+
+        def req(name, lhs, rhs, text):
+            ok, det = MD.equal(alg, lhs, rhs)
+            r4.require(ok, f"{fam.cond_cls.rsplit('.', 1)[1]} {name}", f"{text}: {det}", f"{text} does not hold: {det}", where_of_term(lhs, where), cfg)
+
+        try:
+            ax = call(it, method(it, c, "apply_flat"), x)
+            req("apply_flat mean", ax.fields["mean_flat"], aff(c, x), "mean = P_out (A (P_in x) + b)")
+            mg = call(it, method(it, c, "marginalise"), rv)
+            req("marginalise mean", mg.fields["mean_flat"], aff(c, rv.fields["mean_flat"]), "mean = P_out (A (P_in m) + b)")
+            obs, bw = call(it, method(it, c, "revert"), rv, solve_triu=PrimV("linalg.solve_triu"))
+            req("revert observed mean", obs.fields["mean_flat"], aff(c, rv.fields["mean_flat"]), "observed mean = marginal mean")
+            # the backward conditional evaluated at the observed mean returns the prior mean:  G y^ + (m - G y^) = m
+            alg_b = MD.Algebra(scal, [*mats, bw.fields["A"]])
+            back = call(it, method(it, bw, "apply_flat"), obs.fields["mean_flat"])
+            ok, det = MD.equal(alg_b, back.fields["mean_flat"], rv.fields["mean_flat"])
+            r4.require(ok, f"{fam.cond_cls.rsplit('.', 1)[1]} revert round trip", f"backward conditional at the observed mean gives the prior mean: {det}",
+                       f"backward conditional at the observed mean does not return the prior mean: {det}", where, cfg)
+            # composition: (c2 o c)(x) = c2(c(x))
+            mrg = call(it, method(it, c2, "merge"), c)
+            alg_m = MD.Algebra(scal, [*mats, mrg.fields["A"]])
+            lhs = call(it, method(it, mrg, "apply_flat"), x).fields["mean_flat"]
+            rhs = call(it, method(it, c2, "apply_flat"), ax.fields["mean_flat"]).fields["mean_flat"]
+            # the merged linear map itself must be expressible (a product of the two maps), otherwise the identity is vacuous
+            ok, det = MD.equal(MD.Algebra(scal, mats), lhs, rhs)
+            r4.require(ok, f"{fam.cond_cls.rsplit('.', 1)[1]} merge composes", f"merge(c2, c).apply(x) = c2.apply(c.apply(x)): {det}", f"merge(c2, c).apply(x) differs from c2.apply(c.apply(x)): {det}", where, cfg)
+            # removing the preconditioner does not change the map
+            pc = call(it, method(it, c, "preconditioner_apply"))
+            lhs = call(it, method(it, pc, "apply_flat"), x).fields["mean_flat"]
+            ok, det = MD.equal(MD.Algebra(scal, mats), lhs, ax.fields["mean_flat"])
+            r4.require(ok, f"{fam.cond_cls.rsplit('.', 1)[1]} preconditioner_apply preserves the map", f"c.preconditioner_apply().apply(x) = c.apply(x): {det}",
+                       f"c.preconditioner_apply().apply(x) differs from c.apply(x): {det}", where, cfg)
+        except AnalysisError as e:
+            r4.unknown(f"{fam.cond_cls.rsplit('.', 1)[1]} mean algebra", str(e), where, cfg)
+        S.absorb(it)
+
+
+def where_of_term(t, default):
+    return getattr(t, "origin", None) or default
